@@ -18,7 +18,8 @@ def net_heating_loop():
     pp.create_valve(net, j[3], j[4], "ju", 80, loss_coefficient=5)
     pp.create_heat_consumer(net, j[1], j[3], qext_w=10000, controlled_mdot_kg_per_s=0.3)
     return net, {"break": ("junction", "in_service", list(net.junction.index), False),
-                 "edit": ("pipe", "length_km", [0], 0.8)}
+                 "edit": ("pipe", "length_km", [0], 0.8),
+                 "struct": ("heat_consumer", "in_service", [0], False)}
 
 
 def net_branched():
@@ -34,7 +35,8 @@ def net_branched():
     pp.create_sink(net, j[2], 1.5)
     pp.create_sink(net, j[4], 2.0)
     pp.create_source(net, j[3], 0.4)
-    return net, {"break": ("ext_grid", "in_service", [0], False), "edit": ("sink", "mdot_kg_per_s", [1], 3.5)}
+    return net, {"break": ("ext_grid", "in_service", [0], False), "edit": ("sink", "mdot_kg_per_s", [1], 3.5),
+                 "struct": ("pipe", "in_service", [3], False)}
 
 
 def net_gas():
@@ -46,14 +48,15 @@ def net_gas():
         pp.create_pipe_from_parameters(net, j[a], j[b], l, 100, k_mm=0.05)
     pp.create_sink(net, j[2], 0.02)
     pp.create_sink(net, j[4], 0.03)
-    return net, {"break": ("ext_grid", "in_service", [0], False), "edit": ("pipe", "length_km", [1], 5.0)}
+    return net, {"break": ("ext_grid", "in_service", [0], False), "edit": ("pipe", "length_km", [1], 5.0),
+                 "struct": ("pipe", "in_service", [3], False)}
 
 
 def net_versatility():
     import pandapipes.networks as nw
     net = nw.gas_versatility()
     return net, {"break": ("ext_grid", "in_service", list(net.ext_grid.index), False),
-                 "edit": ("pipe", "length_km", [1], 5.0)}
+                 "edit": ("pipe", "length_km", [1], 5.0), "struct": ("pipe", "in_service", [2], False)}
 
 
 NETS = {"heating_loop": net_heating_loop, "branched": net_branched, "gas": net_gas, "versatility": net_versatility}
@@ -141,3 +144,43 @@ def sol_vec(net):
     from pandapipes.idx_node import PINIT
     from pandapipes.idx_branch import MDOTINIT
     return np.concatenate([net._pit["node"][:, PINIT].copy(), net._pit["branch"][:, MDOTINIT].copy()])
+
+
+EDIT_KEY = {"break": "break", "repair": "break", "edit": "edit", "undo": "edit",
+            "struct_off": "struct", "struct_on": "struct"}
+APPLY_OPS = ("break", "edit", "struct_off")
+
+
+def apply_edit(net, knobs, op, saved):
+    """perform a description-changing op of MC_Hist on the real net (direct table edit, as users do)"""
+    import pandapipes as pp
+    if op["op"] == "setuser":
+        if op["v"] == "clear":
+            pp.set_user_pf_options(net, reset=True)
+        else:
+            pp.set_user_pf_options(net, iter=int(op["v"][4:]), tol_res=2e-3)
+        return
+    key = EDIT_KEY[op["op"]]
+    tbl, col, idx, val = knobs[key]
+    if op["op"] in APPLY_OPS:
+        saved[key] = net[tbl].loc[idx, col].copy()
+        net[tbl].loc[idx, col] = val
+    else:
+        net[tbl].loc[idx, col] = saved[key]
+
+
+def run_options(op):
+    o = {"mode": op["mode"], "nonlinear_method": op["method"], "use_numba": False}
+    if op["budget"] == "starved":
+        o["iter"] = 1
+    elif op.get("uopts_iter") is None:
+        o["iter"] = 60
+    if op.get("tols") == "split":      # different tolerances per quantity: each must be judged by its own
+        o.update(tol_p=1e-4, tol_m=1e-1, tol_T=1e-5, tol_res=1e6)
+    elif op.get("tols") == "split2":
+        o.update(tol_p=1e-1, tol_m=1e-4, tol_T=1e-1, tol_res=1e6)
+    if op.get("matrix") in ("update", "reuse"):
+        o["only_update_hydraulic_matrix"] = True
+    if op.get("matrix") == "reuse":
+        o["reuse_internal_data"] = True
+    return o
